@@ -439,6 +439,22 @@ class Repo:
                     from . import equiv
 
                     self.summaries = equiv.Summaries(list(cur.values()))
+                    # private methods that exist nowhere in the reference and whose name is unique in the package: a call
+                    # `self.<name>(..)` reaches that definition from any module (a base-class helper used by a subclass)
+                    ref_names = {n.name for t in self._ref_trees.values() for n in ast.walk(t) if isinstance(n, (ast.FunctionDef, ast.AsyncFunctionDef))}
+                    count, where = {}, {}
+                    for rel_, t in cur.items():
+                        for c in t.body:
+                            if isinstance(c, ast.ClassDef):
+                                for m_ in c.body:
+                                    if isinstance(m_, ast.FunctionDef):
+                                        count[m_.name] = count.get(m_.name, 0) + 1
+                                        where[m_.name] = (rel_, m_)
+                            elif isinstance(c, ast.FunctionDef):
+                                count[c.name] = count.get(c.name, 0) + 1
+                    self.summaries.foreign_helpers = {
+                        ("self", n): where[n] for n in where
+                        if count[n] == 1 and n.startswith("_") and not n.endswith("__") and self.private_map.get(n, n) not in ref_names}
                 except Exception:  # noqa: BLE001
                     self.summaries = None
             self.equivalence = {}
